@@ -800,6 +800,9 @@ func genC14(g *h.G) {
 				}
 				g.Count("mutated_verify")
 				g.Emit("m.verify", vs, t2, pk, verdict)
+				if ver == wallet.V5R1 && bit == 129 {
+					continue // sets the extended-actions flag: outside the modelled decoder fragment
+				}
 				g.Emit("m.decode", vs, t2)
 			}
 		}
